@@ -75,8 +75,8 @@ type LoadOptions struct {
 	// Known: keys of the functions the rules were confirmed against (tables/known_funcs.txt). When
 	// set, call sites of functions outside this table are expanded before analysis (normalize.go).
 	Known map[string]bool
-	Env     []string // extra env (e.g. GOARCH=386)
-	VTA     bool
+	Env   []string // extra env (e.g. GOARCH=386)
+	VTA   bool
 }
 
 // Load loads ./... of the module at dir. Any load or type error is fatal for
